@@ -19,7 +19,9 @@ Record map_range := MR {
   mr_func  : string;       (* enclosing declaration: Recv.Name | Name | var Name *)
   mr_ord   : nat;          (* 1-based ordinal of the map range inside the declaration *)
   mr_expr  : string;       (* the ranged expression (census) / the model's name (site table) *)
-  mr_class : range_class
+  mr_class : range_class;
+  mr_app   : nat;          (* slices declared outside the loop that the body appends to *)
+  mr_srt   : nat           (* ... of which are passed to a sort call later in the same declaration *)
 }.
 
 Definition class_eqb (a b : range_class) : bool :=
@@ -28,10 +30,12 @@ Definition class_eqb (a b : range_class) : bool :=
   | _, _ => false
   end.
 
-(** Same site, same class (the ranged expression is documentation only). *)
+(** Same site, same class, same appended/sorted counts (the ranged expression is documentation only):
+    removing the sort after a loop, or adding an unsorted append, changes the entry. *)
 Definition same_site (a b : map_range) : bool :=
   String.eqb (mr_file a) (mr_file b) && String.eqb (mr_func a) (mr_func b)
-  && Nat.eqb (mr_ord a) (mr_ord b) && class_eqb (mr_class a) (mr_class b).
+  && Nat.eqb (mr_ord a) (mr_ord b) && class_eqb (mr_class a) (mr_class b)
+  && Nat.eqb (mr_app a) (mr_app b) && Nat.eqb (mr_srt a) (mr_srt b).
 
 Definition needs_model (r : map_range) : bool :=
   match mr_class r with Comm => false | _ => true end.
